@@ -131,6 +131,25 @@ def int_eq_edges(fn, terms, is_val, n):
     return out
 
 
+def int_gt_edges(fn, terms, is_val, k):
+    """edges under which the integer value recognised by is_val is greater than the constant k, however the test is written:
+    v > k, v >= k+1, !(v <= k), !(v < k+1), and the mirrored forms with the constant on the left"""
+    isv = lambda t: is_val(t) or is_val(M.noref(t))
+    def form(op, c, left_const):
+        def pred(x):
+            if not (x[0] == "bin" and x[1] == op):
+                return False
+            a, b = (x[3], x[2]) if left_const else (x[2], x[3])
+            return isv(a) and const_of(b) == c
+        return pred
+    out = []
+    out += bool_edges(fn, terms, form("Gt", k, False), True) + bool_edges(fn, terms, form("Ge", k + 1, False), True)
+    out += bool_edges(fn, terms, form("Le", k, False), False) + bool_edges(fn, terms, form("Lt", k + 1, False), False)
+    out += bool_edges(fn, terms, form("Lt", k, True), True) + bool_edges(fn, terms, form("Le", k + 1, True), True)
+    out += bool_edges(fn, terms, form("Ge", k, True), False) + bool_edges(fn, terms, form("Gt", k + 1, True), False)
+    return out
+
+
 def int_eq_edges_ne(fn, terms, is_val, n):
     """edges under which the integer value recognised by is_val differs from the constant n (`v != n` true edge, `v == n` false edge,
     the default arm of a `match v` that has an arm for n)"""
@@ -437,14 +456,17 @@ def try_ok_edges(fn, terms, call_pred):
     def is_branch_of(t):
         return (t[0] == "call" and t[1].endswith("as std::ops::Try>::branch") and t[2]
                 and t[2][0][0] == "call" and call_pred(t[2][0]))
-    return variant_edges(fn, terms, is_branch_of, 0, [0, 1], "std::ops::ControlFlow<")
+    # ... or of a direct look at that result: match f() { Ok(..) => .., Err(..) => .. }, if let Ok(..) = f(), f().map(..) (lowered)
+    is_call = lambda t: t[0] == "call" and not t[1].endswith("as std::ops::Try>::branch") and call_pred(t)
+    return variant_edges(fn, terms, is_branch_of, 0, [0, 1], "std::ops::ControlFlow<") + variant_edges(fn, terms, is_call, 0, [0, 1], "std::result::Result<")
 
 
 def try_err_edges(fn, terms, call_pred):
     def is_branch_of(t):
         return (t[0] == "call" and t[1].endswith("as std::ops::Try>::branch") and t[2]
                 and t[2][0][0] == "call" and call_pred(t[2][0]))
-    return variant_edges(fn, terms, is_branch_of, 1, [0, 1], "std::ops::ControlFlow<")
+    is_call = lambda t: t[0] == "call" and not t[1].endswith("as std::ops::Try>::branch") and call_pred(t)
+    return variant_edges(fn, terms, is_branch_of, 1, [0, 1], "std::ops::ControlFlow<") + variant_edges(fn, terms, is_call, 1, [0, 1], "std::result::Result<")
 
 
 def callers_of(prog, path):
